@@ -65,11 +65,11 @@ theorem C18_series_cut_exists (fs : FlagSet) (c : Char) (rest : Str) (lf : Found
   simp only [List.mem_filter, List.mem_range] at this
   exact this.1
 
-/-- `toParse[:len(toParse)-1]` (single command): the branch that removes the last word is taken only
+/-- `toParse[:len(toParse)-1]` (any command, as long as the words stay within it): the branch that removes the last word is taken only
     when a flag waits for its value, and then that flag word is the last of the words - so the
     slice is never taken of an empty list -/
-theorem C18_toParse_nonempty {t : TTree} {cs : TCmd} (h : Single t cs) (fs : FlagSet) (ws : List Str)
-    (st : LoopState) (b : Bool) (hl : loop t 0 cs fs ws {} = .done st b)
+theorem C18_toParse_nonempty {t : TTree} {c : Nat} {cs : TCmd} (fs : FlagSet) (ws : List Str) (hnc : NoChild t c ws)
+    (st : LoopState) (b : Bool) (hl : loop t c cs fs ws {} = .done st b)
     (fd : Found) (hfd : st.inFlag = some fd) (hc : (fd.args.isEmpty && consumes fd) = true) :
     st.inArgs ≠ [] := by
   have hcon : consumes fd = true := by
@@ -78,9 +78,9 @@ theorem C18_toParse_nonempty {t : TTree} {cs : TCmd} (h : Single t cs) (fs : Fla
     cases b with
     | false => rfl
     | true =>
-      have := loop_dash_nopend h fs ws {} st hl fd hfd
+      have := loop_dash_nopend fs ws {} st hl fd hfd
       rw [this] at hcon; cases hcon
-  obtain ⟨ws0, a, hws, _, _⟩ := loop_pend h fs ws {} st b (by intro fd' e; cases e) hl hb fd hfd hcon
+  obtain ⟨ws0, a, hws, _, _⟩ := loop_pend fs ws {} st b hnc (by intro fd' e; cases e) hl hb fd hfd hcon
   rw [hws]; simp
 
 end Carapace.Props.C18
